@@ -47,6 +47,9 @@ def make_action(pp, tag):
         return lambda s, l, t: list(t)[::-1]
     if kind == "dup":
         return lambda s, l, t: list(t) + list(t)
+    if kind == "app":
+        v = tag[1]
+        return lambda s, l, t: t.append(v)
     if kind == "failP":
         def f(s, l, t):
             raise pp.ParseException(s, l, "action failP")
@@ -162,6 +165,9 @@ def build(pp, prog) -> Built:
             for w in e.parseAction[n0:]:
                 b.act_tags[id(w)] = ["condTrue"] if val else ["condFalse", bool(kw.get("fatal", False))]
                 b._keep.append(w)
+            continue
+        elif op == "set_name":
+            ref(a[0]).set_name(a[1])
             continue
         elif op == "call_during_try":
             ref(a[0]).callDuringTry = True
